@@ -318,7 +318,21 @@ class BaseWSGIServer(wasyncore.dispatcher):
                 self.logger.warning("server accept() threw an exception", exc_info=True)
             return
         addr = self.fix_addr(addr)
-        self.channel_class(self, conn, addr, self.adj, map=self._map)
+        try:
+            self.channel_class(self, conn, addr, self.adj, map=self._map)
+        except OSError:
+            # The accepted socket can fail while the channel is being set up
+            # (getsockopt/setblocking on a connection that is already gone).
+            # That must not reach the listening socket's handle_error, which
+            # would close the listener and its trigger.
+            if self.adj.log_socket_errors:
+                self.logger.warning(
+                    "setting up an accepted connection failed", exc_info=True
+                )
+            try:
+                conn.close()
+            except OSError:
+                pass
 
     def run(self):
         try:
